@@ -45,3 +45,17 @@ Proof. exact high_water. Qed.
 Theorem C08_free_commute : forall h a b ha hb hab hba, HInv h -> live h a -> live h b -> a <> b ->
   free h a = Some ha -> free ha b = Some hab -> free h b = Some hb -> free hb a = Some hba -> hab = hba.
 Proof. exact free_commute. Qed.
+
+(** Map part: a memory map that passes the ownership certificate makes flat-memory execution compute, at every
+    observed slot, exactly the line-level value -- no live signal is ever overwritten.  (The certificate is evaluated
+    by vm_compute on the model's SimOps result for every generated circuit; that SimOps.build always produces a
+    map passing it is not yet a theorem.) *)
+From KV Require Import Model.SimOps Model.AllocCheck.
+From KV Require Proofs.AllocProofs.
+Theorem C08_map_check_sound : forall V (sem : N -> V -> V -> V -> V -> V) (dflt : V) loc alias init final ops,
+  map_check loc alias init final ops = true ->
+  forall (e0 : ienv) (m0 : fmem),
+    (forall x l, In x init -> loc x = Some l -> m0 l = e0 x) ->
+    forall p, In p final ->
+      mread dflt loc (mexec sem dflt loc ops m0) p = iexec sem alias ops e0 (alias p).
+Proof. intros V sem dflt. exact (KV.Proofs.AllocProofs.map_check_sound sem dflt). Qed.
